@@ -235,6 +235,49 @@ def edge_walks(edges, init_key=None, max_len=400, strip=("res",)):
     return out
 
 
+def sim_walks(module, cfg, *, num, depth, name=None, strip=("res",), timeout=1800, seed_=None, siblings=2):
+    """Behaviours from `tlc -simulate`: the Sim module carries a history variable `hist` (sequence of act
+    records) and an invariant that prints <<"WALK", ToJson(hist)>> in every state; the maximal histories
+    (those not extended by the next printed one) are the behaviours.  Returns walks as lists of steps."""
+    r = require_clean(tlc(module, cfg, name=name, workers=1, simulate=num, depth=depth, timeout=timeout,
+                          seed_=seed_), "simulate %s/%s" % (module, cfg))
+    hists = r.printed("WALK")
+    # TLC's simulator evaluates the invariant on every candidate successor, so all siblings of the chosen
+    # state are printed too (each is a valid behaviour prefix).  Keep full-depth histories, at most
+    # `siblings` per parent prefix, plus maximal shorter ones (behaviours that ended early).
+    walks = []
+    per_parent = defaultdict(int)
+    maxlen = max((len(h) for h in hists), default=0)
+    for i, h in enumerate(hists):
+        if not h:
+            continue
+        if len(h) < maxlen:
+            nxt = hists[i + 1] if i + 1 < len(hists) else None
+            if nxt is None or len(nxt) > len(h) or len(nxt) == len(h):
+                continue      # a longer or sibling history follows: not a maximal one
+        parent = canon(h[:-1])
+        per_parent[parent] += 1
+        if per_parent[parent] > siblings:
+            continue
+        steps = []
+        for a in h:
+            st = {"a": a["name"]}
+            for k, v in a.items():
+                if k != "name" and k not in strip:
+                    st[k] = v
+            steps.append(st)
+        walks.append(steps)
+    # de-duplicate
+    seen = set()
+    out = []
+    for w in walks:
+        c = canon(w)
+        if c not in seen:
+            seen.add(c)
+            out.append(w)
+    return out, r
+
+
 def write_walks(path, walks, start_id=0):
     with open(path, "w") as f:
         for i, w in enumerate(walks):
@@ -247,8 +290,11 @@ def cargo_build(crate, bins=None, timeout=7200):
     """Build harness crate against /repo's current working tree (path deps). Returns dir of binaries."""
     lock_src = os.path.join(REPO, "Cargo.lock")
     lock_dst = os.path.join(HARNESS, "Cargo.lock")
-    if not os.path.exists(lock_dst):
-        shutil.copy(lock_src, lock_dst)
+    # always re-seed from /repo's lock file: cargo prunes the harness lock to the current members, and a
+    # pruned lock cannot be extended offline (yanked crates); atomic rename, other builds may be running
+    tmp = lock_dst + ".%d.tmp" % os.getpid()
+    shutil.copy(lock_src, tmp)
+    os.replace(tmp, lock_dst)
     cmd = ["cargo", "build", "--offline", "--release", "-p", crate]
     e = dict(os.environ)
     e["CARGO_NET_OFFLINE"] = "true"
